@@ -221,8 +221,9 @@ class Ctx:
                 self.fail(clause, by_id[tid], kf=kf or None, pos=pos)
 
     def fail(self, clause, case, kf=None, pos=None, detail=None):
-        if kf and kf in self.kf_open:
-            self.known[kf] = self.known.get(kf, 0) + 1
+        if kf and all(k in self.kf_open for k in kf.split("+")):
+            for k in kf.split("+"):
+                self.known[k] = self.known.get(k, 0) + 1
             return "known"
         rec = {"property": self.pid, "clause": clause, "pos": pos, "detail": detail, "case": case,
                "tier": self.tier, "seed": self.seed, "deviation_matched_but_not_listed": kf}
